@@ -1087,6 +1087,8 @@ func (sq *Queue) RemoveApplication(app *Application) {
 	app.appEvents.SendRemoveApplicationEvent(appID)
 
 	sq.parent.UpdateQueuePriority(sq.Name, priority)
+	// the parents track the application as allocating too: clean up the whole hierarchy
+	sq.parent.removeAllocatingAccepted(appID)
 
 	log.Log(log.SchedQueue).Info("Application completed and removed from queue",
 		zap.String("queueName", sq.QueuePath),
@@ -2062,6 +2064,20 @@ func (sq *Queue) decRunningApps() {
 		log.Log(log.SchedQueue).Debug("queue running apps went negative",
 			zap.String("queueName", sq.QueuePath))
 	}
+}
+
+// removeAllocatingAccepted removes the application from the tracked allocating accepted applications.
+// For this queue (recursively).
+func (sq *Queue) removeAllocatingAccepted(appID string) {
+	if sq == nil {
+		return
+	}
+	if sq.parent != nil {
+		sq.parent.removeAllocatingAccepted(appID)
+	}
+	sq.Lock()
+	defer sq.Unlock()
+	delete(sq.allocatingAcceptedApps, appID)
 }
 
 // setAllocatingAccepted tracks the application in accepted state that have placeholders allocated.
